@@ -207,6 +207,13 @@ func Scenario(c Cfg) {
 		}
 		out := pipe.Join(ctx, ins...)
 		env.WatchClosed("got", out)
+		// the caller reuses its slice after the call: Join must have taken the channels it was given
+		for i := range ins {
+			decoy := make(chan int, 1)
+			decoy <- 900 + i
+			close(decoy)
+			ins[i] = decoy
+		}
 		if c.Stop != 0 {
 			go func() {
 				n := 0
